@@ -1,4 +1,5 @@
 import XrsVerif.Proofs.ILViewshedModel
+import XrsVerif.Proofs.ILViewshedIns
 import XrsVerif.Proofs.ViewshedQuery
 import XrsVerif.Proofs.NV
 /-
@@ -261,6 +262,98 @@ theorem mapT_emb_injective : ∀ (t u : Viewshed.Tree K), mapT emb t = mapT emb 
       obtain ⟨h1, h2, h3, h4, h5⟩ := h
       cases n; cases n'
       simp_all [ihl _ h1, ihr _ h5]
+
+/-- over a linear order the insertion with the child's stored maximum travelling upwards is the hand model's `insCore`
+    (while the propagation runs that maximum *is* the new node's `minv`) -/
+theorem insCoreC_eq {α : Type} [LinearOrder α] (nn : Node α) : ∀ (t : Viewshed.Tree α),
+    (insCoreC nn t).1 = (insCore nn t).1 ∧
+      (insCoreC nn t).2 = (if (insCore nn t).2 = true then some (minv nn) else none) := by
+  intro t
+  induction t with
+  | nil => simp [insCoreC, insCore, leafT]
+  | node l n mx c r ihl ihr =>
+    have key : ∀ (v : α), ¬ v < (if mx < v then v else mx) → (if mx < v then v else mx) = v := by
+      intro v h
+      by_cases h1 : mx < v
+      · simp only [h1, if_true]
+      · simp only [h1, if_false] at h ⊢
+        exact le_antisymm (not_lt.mp h) (not_lt.mp h1)
+    simp only [insCoreC, insCore]
+    split
+    · obtain ⟨e1, e2⟩ := ihl
+      rcases hc : insCoreC nn l with ⟨l', _ | cm⟩
+      · rw [hc] at e1 e2
+        have hf : (insCore nn l).2 = false := by
+          by_cases h : (insCore nn l).2 = true
+          · simp [h] at e2
+          · simpa using h
+        rcases hm : insCore nn l with ⟨l2, f⟩
+        rw [hm] at e1 hf
+        simp only at e1 hf
+        subst hf; subst e1
+        simp
+      · rw [hc] at e1 e2
+        have hf : (insCore nn l).2 = true ∧ cm = minv nn := by
+          by_cases h : (insCore nn l).2 = true
+          · simp [h] at e2; exact ⟨h, e2⟩
+          · simp [h] at e2
+        rcases hm : insCore nn l with ⟨l2, f⟩
+        rw [hm] at e1 hf
+        simp only at e1 hf
+        obtain ⟨rfl, rfl⟩ := hf
+        subst e1
+        simp only [if_true]
+        refine ⟨trivial, ?_⟩
+        by_cases hx : minv nn < (if mx < minv nn then minv nn else mx)
+        · simp [hx]
+        · simp [hx, key _ hx]
+    · obtain ⟨e1, e2⟩ := ihr
+      rcases hc : insCoreC nn r with ⟨r', _ | cm⟩
+      · rw [hc] at e1 e2
+        have hf : (insCore nn r).2 = false := by
+          by_cases h : (insCore nn r).2 = true
+          · simp [h] at e2
+          · simpa using h
+        rcases hm : insCore nn r with ⟨r2, f⟩
+        rw [hm] at e1 hf
+        simp only at e1 hf
+        subst hf; subst e1
+        simp
+      · rw [hc] at e1 e2
+        have hf : (insCore nn r).2 = true ∧ cm = minv nn := by
+          by_cases h : (insCore nn r).2 = true
+          · simp [h] at e2; exact ⟨h, e2⟩
+          · simp [h] at e2
+        rcases hm : insCore nn r with ⟨r2, f⟩
+        rw [hm] at e1 hf
+        simp only at e1 hf
+        obtain ⟨rfl, rfl⟩ := hf
+        subst e1
+        simp only [if_true]
+        refine ⟨trivial, ?_⟩
+        by_cases hx : minv nn < (if mx < minv nn then minv nn else mx)
+        · simp [hx]
+        · simp [hx, key _ hx]
+
+theorem insCoreC_emb (nn : Viewshed.Node K) : ∀ (t : Viewshed.Tree K),
+    insCoreC (mapN emb nn) (mapT emb t) = (mapT emb (insCoreC nn t).1, (insCoreC nn t).2.map emb) := by
+  intro t
+  induction t with
+  | nil => simp [insCoreC, mapT, leafT, minv_emb]
+  | node l n mx c r ihl ihr =>
+    have hk : ((mapN emb nn).key < (mapN emb n).key) ↔ nn.key < n.key := by simp only [mapN, emb_lt]
+    simp only [mapT, insCoreC, hk]
+    split
+    · rw [ihl]
+      rcases insCoreC nn l with ⟨l', _ | cm⟩
+      · simp [mapT]
+      · simp only [Option.map_some, emb_lt]
+        split <;> split <;> simp_all [mapT, emb_lt]
+    · rw [ihr]
+      rcases insCoreC nn r with ⟨r', _ | cm⟩
+      · simp [mapT]
+      · simp only [Option.map_some, emb_lt]
+        split <;> split <;> simp_all [mapT, emb_lt]
 
 end field
 end XrsVerif.ILVs
